@@ -7,7 +7,7 @@ from props import c02, c17
 
 ID = "C06"
 LEVEL = "proof"
-THEOREMS = ["C06_finished_bases_consistent_partial", "C06_concatenations", "C06_finish_succeeds_on_consistent_records", "C06_designed_string_flows", "C06_designed_string_nonvacuous", "C06_fits_check_sound", "C06_loaded_designed_string_flows", "C06_compiled_component_designs", "C06_compiled_design_finishes", "C06_compiled_component_end_to_end", "C06_strand_flattening"]
+THEOREMS = ["C06_finished_bases_consistent_partial", "C06_concatenations", "C06_finish_succeeds_on_consistent_records", "C06_designed_string_flows", "C06_designed_string_nonvacuous", "C06_fits_check_sound", "C06_loaded_designed_string_flows", "C06_compiled_component_designs", "C06_compiled_design_finishes", "C06_compiled_component_end_to_end", "C06_strand_flattening", "C06_struct_loaded_designed_string_flows"]
 TRUSTED = c17.TRUSTED + ["stub NUPACK `mfe` executable (answers the all-unpaired structure) so that pepper-design-spurious can run; plain gcc build of spuriousSSM for the CLI leg"]
 ASSUMPTIONS = ["assignments are produced by the harness filler (random choice per class representative) and, in the CLI leg, by the real spuriousSSM with imax=30"]
 
@@ -249,6 +249,61 @@ def results_leg(rng, n):
                     failures.append({"kind": "disagreement", "key": "results-model-accepts", "summary": "model writes records, implementation fails (%s layout): %s" % (lay, p.get("error", "")[:160]), "replay": rep})
     return failures, dist
 
+def design_case(case):
+    import implrun
+    return implrun.pipeline_design(case["files"], case["base"], args=case["args"], includes=case["includes"] or None, seed=case["seed"],
+                                   struct_orient=case["struct"], trace=case["trace"])
+
+def big_program(k, L):
+    """k probes: a 20 nt helix whose top strand carries one shared unpaired linker of L nt"""
+    rng = random.Random(0)
+    body = [["seq", "linker", [["nuc", [[L, "N"]]]], None]]
+    for i in range(k):
+        dp = "(" * 20 + "." * L + "+" + ")" * 20
+        body += [["seq", "h%d" % i, [["nuc", [[1, "S"], [18, "N"], [1, "W"]]]], ["Some", 20]],
+                 ["strand", False, "T%d" % i, [["ref", "h%d" % i, False], ["ref", "linker", False]], None],
+                 ["strand", False, "B%d" % i, [["ref", "h%d" % i, True]], None],
+                 ["struct", 1, "P%d" % i, ["T%d" % i, "B%d" % i], False, ["ext", pepper.dp_to_ext(rng, dp)]]]
+    return {"decl": ["prog", [], []], "body": body}
+
+def design_leg(rng, tier, cases, impl):
+    """the hand-over as pepper-design-spurious performs it: arrays through the .st/.wc/.eq files, an external designer,
+    its answer read back from the .sp file by design(), .mfe, finish - checked against the source"""
+    nsmall = 8 if tier == "quick" else 80
+    sel = []
+    for c, r in zip(cases, impl):
+        if len(sel) >= nsmall: break
+        if isinstance(r, dict) and r.get("strand", {}).get("outcome") == "ok":
+            sel.append(dict(c, struct=(len(sel) % 2 == 1 and r.get("struct", {}).get("outcome") == "ok"), trace=rng.choice([0, 3, 400])))
+    # designs whose arrays are far longer than any buffer one would think of (one in the quick tier)
+    for (k, L, so) in ([(12, 3000, False)] if tier == "quick" else [(12, 3000, False), (6, 3000, True), (12, 6000, False)]):
+        prog = big_program(k, L)
+        sel.append({"files": {"prog.comp": pepper.comp_text(random.Random(1), prog)}, "includes": [], "base": "prog", "args": [], "_prog": prog,
+                    "seed": rng.randrange(10**6), "struct": so, "trace": 5, "_big": True})
+    res = fw.run_impl("props.c06", "design_case", [{k: v for k, v in c.items() if not k.startswith("_")} for c in sel], per_case_timeout=900, chunksize=1)
+    failures = []; dist = {"runs": 0, "ok": 0, "struct_layout": 0, "max_positions": 0}
+    for c, r in zip(sel, res):
+        dist["runs"] += 1; dist["struct_layout"] += int(c["struct"])
+        rep = {"files": c["files"], "layout": "struct" if c["struct"] else "strand",
+               "argv": "pepper-compiler %s; spurious_design.design(...) with a stand-in designer answering an assignment that satisfies the written files (seed=%d, %d trace lines); pepper-finish" % (c["base"], c["seed"], c["trace"])}
+        if not isinstance(r, dict) or r.get("outcome") != "ok":
+            failures.append({"kind": "predicate", "key": "design:" + (r.get("stage", "?") if isinstance(r, dict) else "runner"),
+                             "summary": "a design accepted in process fails when handed over through design(): %s" % (str(r.get("error") if isinstance(r, dict) else r)[:300]), "replay": rep}); continue
+        dist["max_positions"] = max(dist["max_positions"], r.get("positions", 0))
+        try:
+            if "_prog" in c:
+                den = pepper.den_src(c["_prog"], "", r["ctr0"]); den["equals"] = []
+            else:
+                den, _ = pepper.expected_system_den(c["_gen"], c["_top"], c["args"], r["ctr0"])
+        except (ValueError, KeyError, ZeroDivisionError, TypeError):
+            continue
+        bad = check_against_source(den, r["seqs"], r["strands"])
+        if bad:
+            failures.append({"kind": "predicate", "key": "design-seqs", "summary": "hand-over through design(): finished sequences do not satisfy the source: %s" % "; ".join(bad[:2])[:300], "replay": rep})
+        else:
+            dist["ok"] += 1
+    return failures, dist
+
 def run(tier, seed, build):
     rng = random.Random(seed * 173 + 6)
     n = 60 if tier == "quick" else 800
@@ -358,7 +413,9 @@ def run(tier, seed, build):
     # designer-side leg: the model of process_results / output against the implementation, on PIL documents
     rf, rdist = results_leg(rng, 150 if tier == "quick" else 2000)
     failures += rf; dist["results_leg"] = rdist
-    return {"evaluations": dist["pipelines"] + dist["cli_runs"] + rdist["runs"], "distinct_nontrivial": len(nontrivial),
+    df, ddist = design_leg(rng, tier, cases, impl)
+    failures += df; dist["design_leg"] = ddist
+    return {"evaluations": dist["pipelines"] + dist["cli_runs"] + rdist["runs"] + ddist["runs"], "distinct_nontrivial": len(nontrivial),
             "rule": "satisfiable generated components (incl. unused degenerate sequences, dummy strands, zero-length domains) and system libraries; both layouts; compile -> Convert.get_constraints -> harness assignment satisfying the arrays -> process_results -> .mfe -> finish; the .seqs / strands files checked against the source denotation (constraints, reverse complements, concatenations, Watson-Crick pairs, signal agreement, completeness) and compared with the finish model; plus %d runs through the three command-line tools with the real spuriousSSM; plus the designer-side leg: PIL documents (compiler-emitted and hand-written) x both layouts x a string satisfying the arrays or corrupted in a stated way (one base flipped, a blank, a degenerate code, truncated) through Convert.process_results and Convert.output, records and refusals compared with the model design_results. Non-trivial = completed pipeline with a source denotation" % ncli,
             "samples": [c["files"] for c in cases[:1]], "distribution": dist, "failures": failures}
 
